@@ -181,6 +181,12 @@ class Repo:
                     self.modules[rel] = m
                     self.by_modname[m.modname] = m
         self._resolve_bases()
+        # summaries by inlining: private helpers are folded into their callers before any rule looks at a function
+        from .inline import inline_private_helpers
+        self.inlined = inline_private_helpers(self)
+        if self.inlined:
+            for m in self.modules.values():
+                set_parents(m.tree)
 
     # -- resolution -----------------------------------------------------------------
     def resolve_name(self, module, name, depth=0):
